@@ -13,7 +13,7 @@ import (
 // c03Snapshot renders a binding environment to text, including slice capacity tails.
 func c03Snapshot(b Bindings) string {
 	e := NewEngine()
-	out, err := e.ParseAndRenderString("{{ a | join: ',' }}|{{ a2 | join }}|{{ strs | join }}|{{ ints | join }}|{{ n }}|{{ str }}|{{ m.k }}{{ m.j }}{{ m.inner.deep }}{{ m.arr | join }}{{ m.size }}|{{ ms | map: 'k' | join: ',' }}|{{ ds | join }}", b)
+	out, err := e.ParseAndRenderString("{{ a | join: ',' }}|{{ an | join: ',' }}{{ an | size }}|{{ a2 | join }}|{{ strs | join }}|{{ ints | join }}|{{ n }}|{{ str }}|{{ m.k }}{{ m.j }}{{ m.inner.deep }}{{ m.arr | join }}{{ m.size }}|{{ ms | map: 'k' | join: ',' }}|{{ ds | join }}", b)
 	if err != nil {
 		return "snapshot error: " + err.Error()
 	}
